@@ -28,6 +28,7 @@ import (
 	"time"
 
 	ssi "github.com/nuts-foundation/go-did"
+	"github.com/nuts-foundation/go-stoabs"
 	"github.com/nuts-foundation/go-did/did"
 	"github.com/nuts-foundation/nuts-node/audit"
 	nutsCrypto "github.com/nuts-foundation/nuts-node/crypto"
@@ -841,6 +842,8 @@ func TestVerifC13(t *testing.T) {
 	logrus.SetLevel(logrus.PanicLevel)
 	r := ev.Start(t, "C13")
 	defer r.Finish()
+	// the node gives up on a bbolt lock after one second of REAL time; on a loaded machine that is a harness hazard
+	storage.DefaultBBoltOptions = append(storage.DefaultBBoltOptions, stoabs.WithLockAcquireTimeout(2*time.Minute))
 	r.Rule("operation sequences over {create A, create B, add/update/delete service, add key, deactivate} (create A twice = create same subject) up to the length bound; " +
 		"for each operation of each sequence each numbered step of the fault-free twin run (SQL begin / statement / commit of both transactions, before and after each method's Commit, end) " +
 		"x {error, stop}, plus an un-aged sweep inside the operation at each method-commit boundary; scripted did:nuts environment and real did:nuts manager + store; " +
